@@ -5,6 +5,7 @@ package main
 
 import (
 	"fmt"
+	"go/types"
 	"strings"
 )
 
@@ -16,7 +17,7 @@ const (
 )
 
 func runC17(cx *Ctx, r *Report) {
-	r.Explanation = "F3/F4/F1 over every call chain of the four oracle handlers and the three service callbacks. (creator) every mutation of StartFeed, PauseFeed and EditFeed — including those inside the service keeper reached through the keeper interface — holds the fact signer == the feed's recorded creator; the new feed records the signer as creator. (state mirror) wherever the service context's State is assigned s on such a path, the feed state index is moved to s in the same handler (delete of the other state's key, set of s's key, all must-executed); the state callback moves the index to the context's current state; a new feed is indexed PAUSED and its context is created PAUSED. (one value per response) the response callback writes at most one feed value, keyed by (feed name, the context's batch counter), whose Timestamp is the block time and whose Data is the result of the feed's configured aggregate over the values extracted from the response outputs; the trim of old values precedes the write and deletes oldest-first; value lists are read newest-first (reverse iterator). Decides structure; the aggregate's numeric result and trimming counts are not decided."
+	r.Explanation = "F3/F4/F1 over every call chain of the four oracle handlers and the three service callbacks. (creator) every mutation of StartFeed, PauseFeed and EditFeed — including those inside the service keeper reached through the keeper interface — holds the fact signer == the feed's recorded creator; the new feed records the signer as creator. (state mirror) wherever the service context's State is assigned s on such a path, the feed state index is moved to s in the same handler (delete of the other state's key, set of s's key, all must-executed); the state callback moves the index to the context's current state; a new feed is indexed PAUSED and its context is created PAUSED. (one value per response) the response callback writes at most one feed value, keyed by (feed name, the context's batch counter), whose Timestamp is the block time and whose Data is the result of the feed's configured aggregate over the values extracted from the response outputs; the trim of old values precedes the write and deletes oldest-first; value lists are read newest-first (reverse iterator). (trim count) EditFeed removes exactly stored-count − msg.LatestHistory oldest values and only when the new history is smaller than the stored count; the response callback removes stored-count − LatestHistory + 1 before adding one. Decides structure; the aggregate's numeric result is not decided."
 	r.Assumptions = []string{"the service module invokes the callbacks it registered (C08)", "store iteration is ordered by key; the value key ends in the big-endian batch counter"}
 	per := collectEvents(cx, r, "oracle", "msg", "callback")
 	// ---------------- creator guard
@@ -162,6 +163,67 @@ func runC17(cx *Ctx, r *Report) {
 			r.ok("newest-first", "scan", "", fmt.Sprintf("%d iterations over the feed-value prefix: lists use the reverse iterator, the forward iterator is used only to trim oldest entries", n))
 		}
 	}
+	// ---------------- trimming counts
+	{
+		// the number of oldest values removed is (stored count − allowed history), where the
+		// stored count is computed by iterating the feed's own value prefix
+		counters := map[string]bool{}
+		for _, f := range cx.P.AllFuncs {
+			if !isConsensusCode(cx, f) || moduleOf(funcPkgPath(f)) != "oracle" || f.Parent() != nil {
+				continue
+			}
+			res := f.Signature.Results()
+			if res.Len() != 1 {
+				continue
+			}
+			if b, ok := res.At(0).Type().Underlying().(*types.Basic); !ok || b.Info()&types.IsInteger == 0 {
+				continue
+			}
+			for _, p := range cx.primsOf(f) {
+				if (p.Kind == "store.iter" || p.Kind == "store.riter") && len(p.Prefix) == 1 && p.Prefix[0] == orcValue {
+					counters[callNameOfFn(f)] = true
+				}
+			}
+		}
+		trimArg := func(x hev) string {
+			fr := x.ev.Fr
+			ps := fr.Fn.Params
+			if len(ps) == 0 {
+				return ""
+			}
+			return x.w.ts.Of(ps[len(ps)-1], fr).LooseString()
+		}
+		hasCounter := func(s string) bool {
+			for c := range counters {
+				if strings.Contains(s, c+"(") {
+					return true
+				}
+			}
+			return false
+		}
+		for _, name := range []string{"EditFeed", "RegisterResponseCallback"} {
+			del := pick(per[name], "store.delete", func(x hev) bool { return hasPrefix(x.ev, orcValue) })
+			if len(del) == 0 {
+				r.violate("trim-count", name, "", name+" no longer trims old feed values")
+				continue
+			}
+			for _, d := range del {
+				a := trimArg(d)
+				var ok bool
+				var want string
+				if name == "EditFeed" {
+					want = "(stored count − msg.LatestHistory), only when msg.LatestHistory < stored count"
+					_, g := d.fact(true, "msg.LatestHistory", " < ")
+					ok = hasCounter(a) && strings.HasPrefix(a, "(") && strings.HasSuffix(a, " - msg.LatestHistory)") && g
+				} else {
+					want = "((stored count − feed.LatestHistory) + 1) before adding one value"
+					ok = hasCounter(a) && strings.Contains(a, ".LatestHistory) + 1)") && !strings.Contains(a, "msg.")
+				}
+				r.check(ok, "trim-count", name, d.ev.Pos(cx), "the number of oldest values removed is "+want, name+": removes "+trunc(a, 160)+" oldest values; expected "+want+": the feed would keep fewer (or more) than the newest latest-history values")
+			}
+		}
+	}
+	r.requireCount("trim-count", 2)
 	r.requireCount("creator-guard", 3)
 	r.requireCount("state-mirror", 4)
 }
